@@ -69,6 +69,12 @@ type TR struct {
 	Act  Act    `json:"act"`
 	Ret  string `json:"ret"`
 	Pre  St     `json:"pre"`
+	// the specification's own remark about the states of the transition (coverage accounting; in
+	// transitions mode a probe matrix is also run BEFORE the step when pre is marked)
+	Ov struct {
+		Pre  bool `json:"pre"`
+		Post bool `json:"post"`
+	} `json:"ov"`
 }
 
 type Row struct {
@@ -114,7 +120,7 @@ func shownDyn(lines []string) []Dyn {
 }
 
 type Event struct {
-	Ev   string     `json:"ev"` // reset | step | matrix | reload
+	Ev   string     `json:"ev"` // reset | step | matrix | reload (matrix: St = the stored state AFTER the probes)
 	H    int        `json:"h"`
 	Act  *Act       `json:"act,omitempty"`
 	Ret  string     `json:"ret,omitempty"`
@@ -555,7 +561,7 @@ func replay(v *Vocab, o replayOpts) {
 	var w *World
 	h := 0
 	lastStep := 0
-	matrices, probesRun, differing := 0, 0, 0
+	matrices, probesRun, differing, ovPost := 0, 0, 0, 0
 	count := func(rows []Row) {
 		matrices++
 		probesRun += len(rows)
@@ -581,7 +587,7 @@ func replay(v *Vocab, o replayOpts) {
 		if o.matrix == "end" {
 			rows := w.matrix(o.classes)
 			count(rows)
-			wr.Write(Event{Ev: "matrix", H: h, Rows: rows})
+			wr.Write(Event{Ev: "matrix", H: h, Rows: rows, St: w.project()})
 		}
 		if o.reload {
 			ev := Event{Ev: "reload", H: h}
@@ -626,6 +632,14 @@ func replay(v *Vocab, o replayOpts) {
 				}
 			}
 			wr.Write(Event{Ev: "reset", H: h, St: &pre})
+			if o.mode == "transitions" && o.matrix == "every" && tr.Ov.Pre {
+				rows := w.matrix(o.classes) // sessions of every user exist and have looked at their privileges before the step
+				count(rows)
+				wr.Write(Event{Ev: "matrix", H: h, Rows: rows, St: w.project()})
+			}
+		}
+		if tr.Ov.Post {
+			ovPost++
 		}
 		lastStep = tr.Step
 		a := tr.Act
@@ -634,7 +648,7 @@ func replay(v *Vocab, o replayOpts) {
 		if o.matrix == "every" {
 			rows := w.matrix(o.classes)
 			count(rows)
-			wr.Write(Event{Ev: "matrix", H: h, Rows: rows})
+			wr.Write(Event{Ev: "matrix", H: h, Rows: rows, St: w.project()})
 		}
 		return nil
 	})
@@ -647,5 +661,6 @@ func replay(v *Vocab, o replayOpts) {
 	rep.Extra["histories"] = h
 	rep.Extra["matrices"] = matrices
 	rep.Extra["probes"] = probesRun
+	rep.Extra["steps_into_table_overlap"] = ovPost
 	rep.Emit()
 }
